@@ -38,6 +38,8 @@ pub struct Case {
     pub caps: u8,
     /// the transport accepts at most this many bytes per write call (0: everything)
     pub write_cap: usize,
+    /// before the events the server deactivates and re-activates the session: 1 with another share id, 2 with the same
+    pub reactivated: u8,
 }
 
 pub struct C11 {
@@ -75,10 +77,10 @@ impl Prop for C11 {
         let (uid, sid) = (1007u16, 0x000103EAu32);
         // A: every x, every y, every scancode (batches of 64 events on one connection: order is checked too)
         for base in (0..65536u32).step_by(64) {
-            cs.push(Case { events: (0..64).map(|i| Ev::Ptr { x: (base + i) as u16, y: 5, button: 1, down: true }).collect(), user_id: uid, share_id: sid, block: "all-x", lenient: false, caps: 0, write_cap: 0 });
-            cs.push(Case { events: (0..64).map(|i| Ev::Ptr { x: 7, y: (base + i) as u16, button: 0, down: false }).collect(), user_id: uid, share_id: sid, block: "all-y", lenient: false, caps: 0, write_cap: 0 });
-            cs.push(Case { events: (0..64).map(|i| Ev::Key { code: (base + i) as u16, down: i % 2 == 0 }).collect(), user_id: uid, share_id: sid, block: "all-scancodes", lenient: false, caps: 0, write_cap: 0 });
-            cs.push(Case { events: (0..64).map(|i| Ev::Key { code: (base + i) as u16, down: i % 2 == 1 }).collect(), user_id: uid, share_id: sid, block: "all-scancodes", lenient: false, caps: 0, write_cap: 0 });
+            cs.push(Case { events: (0..64).map(|i| Ev::Ptr { x: (base + i) as u16, y: 5, button: 1, down: true }).collect(), user_id: uid, share_id: sid, block: "all-x", lenient: false, caps: 0, write_cap: 0, reactivated: 0 });
+            cs.push(Case { events: (0..64).map(|i| Ev::Ptr { x: 7, y: (base + i) as u16, button: 0, down: false }).collect(), user_id: uid, share_id: sid, block: "all-y", lenient: false, caps: 0, write_cap: 0, reactivated: 0 });
+            cs.push(Case { events: (0..64).map(|i| Ev::Key { code: (base + i) as u16, down: i % 2 == 0 }).collect(), user_id: uid, share_id: sid, block: "all-scancodes", lenient: false, caps: 0, write_cap: 0, reactivated: 0 });
+            cs.push(Case { events: (0..64).map(|i| Ev::Key { code: (base + i) as u16, down: i % 2 == 1 }).collect(), user_id: uid, share_id: sid, block: "all-scancodes", lenient: false, caps: 0, write_cap: 0, reactivated: 0 });
         }
         // B: buttons x press state x boundary coordinates
         let b = [0u16, 1, 0x7FFF, 0x8000, 0xFFFF];
@@ -86,7 +88,7 @@ impl Prop for C11 {
             for down in [false, true] {
                 for x in b {
                     for y in b {
-                        cs.push(Case { events: vec![Ev::Ptr { x, y, button: btn, down }], user_id: uid, share_id: sid, block: "buttons", lenient: false, caps: 0, write_cap: 0 });
+                        cs.push(Case { events: vec![Ev::Ptr { x, y, button: btn, down }], user_id: uid, share_id: sid, block: "buttons", lenient: false, caps: 0, write_cap: 0, reactivated: 0 });
                     }
                 }
             }
@@ -120,19 +122,19 @@ impl Prop for C11 {
         let mut seqs = vec![];
         rec(&alpha, depth, &mut vec![], &mut seqs);
         for s in &seqs {
-            cs.push(Case { events: s.clone(), user_id: uid, share_id: sid, block: "sequences", lenient: false, caps: 0, write_cap: 0 });
+            cs.push(Case { events: s.clone(), user_id: uid, share_id: sid, block: "sequences", lenient: false, caps: 0, write_cap: 0, reactivated: 0 });
             for pos in 0..=s.len() {
                 for k in 0..5u8 {
                     let mut e = s.clone();
                     e.insert(pos, Ev::Server(k));
-                    cs.push(Case { events: e, user_id: uid, share_id: sid, block: "sequences-with-server-traffic", lenient: false, caps: 0, write_cap: 0 });
+                    cs.push(Case { events: e, user_id: uid, share_id: sid, block: "sequences-with-server-traffic", lenient: false, caps: 0, write_cap: 0, reactivated: 0 });
                 }
             }
         }
         // D: identifiers assigned by the server
         for user_id in [1001u16, 1002, 1004, 1007, 0x8000, 65534, 65535] {
             for share_id in [0u32, 1, 0x000103EA, 0xFFFFFFFF] {
-                cs.push(Case { events: vec![Ev::Ptr { x: 1, y: 2, button: 1, down: true }, Ev::Key { code: 3, down: false }], user_id, share_id, block: "identifiers", lenient: false, caps: 0, write_cap: 0 });
+                cs.push(Case { events: vec![Ev::Ptr { x: 1, y: 2, button: 1, down: true }, Ev::Key { code: 3, down: false }], user_id, share_id, block: "identifiers", lenient: false, caps: 0, write_cap: 0, reactivated: 0 });
             }
         }
         // E: the lenient entry point, the server's capability list and a short-writing transport do not change anything
@@ -140,7 +142,7 @@ impl Prop for C11 {
         for lenient in [false, true] {
             for caps in 0..5u8 {
                 for write_cap in [0usize, 1, 2, 7, 20, 47, 48] {
-                    cs.push(Case { events: probe.clone(), user_id: uid, share_id: sid, block: "entry-point-x-capabilities-x-transport", lenient, caps, write_cap });
+                    cs.push(Case { events: probe.clone(), user_id: uid, share_id: sid, block: "entry-point-x-capabilities-x-transport", lenient, caps, write_cap, reactivated: 0 });
                 }
             }
         }
@@ -153,13 +155,22 @@ impl Prop for C11 {
                     e.insert(pos, Ev::FailNextWrite(kind));
                     // and something after it, so that a frame kept back would show up
                     e.push(Ev::Ptr { x: 77, y: 88, button: 2, down: true });
-                    cs.push(Case { events: e, user_id: uid, share_id: sid, block: "refused-write", lenient: false, caps: 0, write_cap: 0 });
+                    cs.push(Case { events: e, user_id: uid, share_id: sid, block: "refused-write", lenient: false, caps: 0, write_cap: 0, reactivated: 0 });
                 }
             }
         }
         for s in seqs.iter().filter(|s| s.len() <= 2) {
-            cs.push(Case { events: s.clone(), user_id: uid, share_id: sid, block: "sequences-lenient", lenient: true, caps: 0, write_cap: 0 });
-            cs.push(Case { events: s.clone(), user_id: uid, share_id: sid, block: "sequences-no-scancode-flag", lenient: false, caps: 2, write_cap: 3 });
+            cs.push(Case { events: s.clone(), user_id: uid, share_id: sid, block: "sequences-lenient", lenient: true, caps: 0, write_cap: 0, reactivated: 0 });
+            cs.push(Case { events: s.clone(), user_id: uid, share_id: sid, block: "sequences-no-scancode-flag", lenient: false, caps: 2, write_cap: 3, reactivated: 0 });
+        }
+        // G: the same after the server has deactivated and re-activated the session (fresh or reused share id): the
+        // input PDUs name the share of the activation they are sent in
+        for s in seqs.iter().filter(|s| s.len() <= 2) {
+            for reactivated in [1u8, 2] {
+                for share_id in [sid, 0, 0xFFFF_FFFF] {
+                    cs.push(Case { events: s.clone(), user_id: uid, share_id, block: "after-reactivation", lenient: false, caps: 0, write_cap: 0, reactivated });
+                }
+            }
         }
         self.cases = cs;
         Ok(())
@@ -172,7 +183,7 @@ impl Prop for C11 {
         json!({"idx": idx, "block": c.block, "user_id": c.user_id, "share_id": c.share_id, "n_events": c.events.len(), "events": c.events.iter().take(8).collect::<Vec<_>>()})
     }
     fn rule(&self) -> String {
-        "cases = event sequences submitted through RdpClient::write on a really activated client (raw stack), decoded by the reference peer. [all-x/all-y/all-scancodes] every value 0..65535 of x, y and scancode (batches of 64 events, order checked); [buttons] 4 buttons x 2 press states x 5x5 boundary coordinates; [sequences] every sequence of <=3 (<=4) events over a 9-letter alphabet incl. an unsendable kind, alone and with one server PDU (fast-path bitmap, set-error-info, unknown data PDU, a demand-active or a confirm-active arriving in the active state) interleaved at every position; [refused-write] one write refused by the transport (WouldBlock / TimedOut / Other, before its first byte) at every position of every sequence of <=2 events; [identifiers] server-assigned user ids x share ids; [entry-point-x-capabilities-x-transport] a probe sequence (incl. the unsendable kind through write and try_write, a repeated pointer move) through write / try_write x 5 server capability lists (Windows, minimal, input capability without the scancode flag, no input capability, unknown sets) x a transport accepting 1..48 bytes per write; every sequence of <=2 events through try_write, and with the no-scancode-flag list on a 3-byte transport. Non-trivial: >= 2 events or non-default identifiers.".into()
+        "cases = event sequences submitted through RdpClient::write on a really activated client (raw stack), decoded by the reference peer. [all-x/all-y/all-scancodes] every value 0..65535 of x, y and scancode (batches of 64 events, order checked); [buttons] 4 buttons x 2 press states x 5x5 boundary coordinates; [sequences] every sequence of <=3 (<=4) events over a 9-letter alphabet incl. an unsendable kind, alone and with one server PDU (fast-path bitmap, set-error-info, unknown data PDU, a demand-active or a confirm-active arriving in the active state) interleaved at every position; [refused-write] one write refused by the transport (WouldBlock / TimedOut / Other, before its first byte) at every position of every sequence of <=2 events; [identifiers] server-assigned user ids x share ids; [entry-point-x-capabilities-x-transport] a probe sequence (incl. the unsendable kind through write and try_write, a repeated pointer move) through write / try_write x 5 server capability lists (Windows, minimal, input capability without the scancode flag, no input capability, unknown sets) x a transport accepting 1..48 bytes per write; every sequence of <=2 events through try_write, and with the no-scancode-flag list on a 3-byte transport; [after-reactivation] every sequence of <=2 events after a deactivate-all and a second activation with another / the same share id (3 base share ids): the PDUs name the current share. Non-trivial: >= 2 events or non-default identifiers.".into()
     }
     fn assumptions(&self) -> Vec<String> {
         vec![
@@ -183,11 +194,25 @@ impl Prop for C11 {
     fn run_case(&mut self, idx: u64) -> Outcome {
         let c = self.cases[idx as usize].clone();
         let caps = [crate::peer::CapsKind::WindowsCapture, crate::peer::CapsKind::Minimal, crate::peer::CapsKind::InputWithoutScancodes, crate::peer::CapsKind::NoInputCapability, crate::peer::CapsKind::WithUnknown][c.caps as usize % 5].clone();
-        let p = ServerParams { user_id: c.user_id, share_id: c.share_id, caps, ..Default::default() };
+        let p = ServerParams { user_id: c.user_id, share_id: c.share_id, caps, reactivations: if c.reactivated > 0 { 1 } else { 0 }, reuse_share_id: c.reactivated == 2, ..Default::default() };
         let mut conn = match raw_active(&ClientCfg::default(), p) {
             Ok(c) => c,
             Err(e) => return Outcome::fail("setup", "honest-activation-failed", e),
         };
+        let mut c = c;
+        if c.reactivated > 0 {
+            // the idle server now sends deactivate-all + demand-active; read them and the finalization
+            let cl = conn.client.as_mut().unwrap();
+            if let Err(e) = cl.read(|_| {}) {
+                return Outcome::fail("setup", "honest-activation-failed", format!("deactivate-all: {:?}", e));
+            }
+            if let Err(e) = crate::fixture::drive_activation(cl, 16) {
+                return Outcome::fail("setup", "honest-activation-failed", format!("re-activation: {}", e));
+            }
+            if c.reactivated == 1 {
+                c.share_id = crate::peer::share_id_of_activation(c.share_id, 1);
+            }
+        }
         if c.write_cap > 0 {
             conn.sh.borrow_mut().write_plan = crate::memlink::WritePlan::Cap(c.write_cap);
         }
